@@ -3,6 +3,7 @@ package main
 // C15 - Ed25519 key blinding yields ordinary, invertible, context-bound Ed25519 keys.
 
 import (
+	"fmt"
 	"strings"
 
 	"golang.org/x/tools/go/ssa"
@@ -31,8 +32,10 @@ func c15(p *Prog, r *Report) {
 	const R1 = "C15.derivation-term"
 	const R2 = "C15.blind-unblind-sign-shapes"
 	const R3 = "C15.deterministic"
+	const R4 = "C15.hash-input-in-fresh-storage"
 	r.Rule(R1, "blinding scalar = Scalar.SetBytes(SHA-512(blind||0x00||context)[:32]) at all three sites; wrappers pass a nil context", 6)
 	r.Rule(R2, "blind = Bytes(ScalarMult(r, decode(pk))); unblind = Bytes(ScalarMult(ModInverse(r), decode(pk))); blinded signing = signInternal(sig, Bytes(r*A), msg, h[32:]||b[32:], clamp(h[:32])*r)", 3)
+	r.Rule(R4, "the hash input blind||0x00||context is built by appending to a fresh buffer, never to an argument's slice", 3)
 	r.Rule(R3, "no entropy source reachable from the six blinding entry points; no mutable package-level state touched", 12)
 
 	pt := func(pk, alloc string) string {
@@ -74,6 +77,49 @@ func c15(p *Prog, r *Report) {
 			)
 			r.Check(why == "", R2, "blindKeySign => signInternal(sig, r*A, msg, h[32:]||b[32:], k*r)", p.InstrPos(sites[0]), "bound", why)
 			r.Check(strings.Contains(arg(ct, 4).String(), rr) && strings.Contains(arg(ct, 1).String(), rr), R1, "blindKeySign: same blinding scalar for key and secret", p.InstrPos(sites[0]), rr, "the public key and the secret scalar are not scaled by the same SetBytes(SHA-512(blind||0||context)[:32])")
+		}
+	}
+	// R4: blind || 0x00 || context is assembled in storage no argument aliases
+	// (append onto a caller's slice would write the separator into the caller's
+	// array - possibly into the context itself - before hashing)
+	for _, name := range []string{"~/ed25519.BlindPublicKeyWithContext", "~/ed25519.UnblindPublicKeyWithContext", "~/ed25519.blindKeySign"} {
+		fn := anchor(p, r, R4, name)
+		if fn == nil {
+			continue
+		}
+		n := 0
+		for _, c := range sitesIn(fn, func(n string) bool { return n == "crypto/sha512.Sum512" }) {
+			args := c.Common().Args
+			if len(args) != 1 {
+				continue
+			}
+			n++
+			root, why := appendRoot(args[0], 0)
+			ok := why == ""
+			if root == args[0] {
+				// not grown at all: a plain view is hashed, nothing is written
+				r.OK(R4, fmt.Sprintf("%s: SHA-512 input #%d is a plain view", shortName(fn), n), p.InstrPos(c), "no append")
+				continue
+			}
+			if ok {
+				switch x := root.(type) {
+				case *ssa.MakeSlice, *ssa.Convert:
+				case *ssa.Const:
+					ok = x.Value == nil
+				case *ssa.Slice:
+					_, isAlloc := x.X.(*ssa.Alloc)
+					ok = isAlloc
+				default:
+					ok = false
+				}
+				if !ok {
+					why = fmt.Sprintf("the buffer is grown from %s (%T), which may share its array with an argument", root.Name(), root)
+				}
+			}
+			r.Check(ok, R4, fmt.Sprintf("%s: SHA-512 input #%d assembled in fresh storage", shortName(fn), n), p.InstrPos(c), "append chain rooted at a fresh buffer", why)
+		}
+		if n == 0 {
+			r.Fail(R4, shortName(fn)+": SHA-512 input assembled in fresh storage", p.Pos(fn.Pos()), "no SHA-512 call found")
 		}
 	}
 	// plain signing uses the same signInternal
@@ -215,4 +261,21 @@ func (p *Prog) reachNoStdBodies(fn *ssa.Function) map[*ssa.Function]*ssa.Functio
 		}
 	}
 	return parent
+}
+
+// appendRoot follows a chain of append calls (and phis of the same chain are
+// not followed) down to the value first appended to.
+func appendRoot(v ssa.Value, depth int) (ssa.Value, string) {
+	if depth > 16 {
+		return v, "append chain too deep"
+	}
+	switch x := v.(type) {
+	case *ssa.Call:
+		if b, ok := x.Call.Value.(*ssa.Builtin); ok && b.Name() == "append" {
+			return appendRoot(x.Call.Args[0], depth+1)
+		}
+	case *ssa.ChangeType:
+		return appendRoot(x.X, depth+1)
+	}
+	return v, ""
 }
